@@ -337,6 +337,17 @@ def gen_lambda(r, size):
         form = r.choice(["%s(%s, %s)" % (op, a1, a2), "(%s) ! %s, %s" % (op, a1, a2) if op in ("-", "+", "*") else "%s ! %s, %s" % (op, a1, a2),
                          "%s(%s, _)(%s)" % (op, a1, a2), "%s(%s)" % (op, a1) if op == "-" else "%s(%s, %s, 1)" % (op, a1, a2)])
         body = "(chp := (try %s catch _e -> \"raised\"); print(chp); %s)" % (form, body)
+    # an operator chain whose operands have effects (each prints itself) and in which an early operator may raise
+    # (division by zero) before a later operand is due: value, output and raised/not-raised all depend on the
+    # order in which the chain evaluator interleaves operand evaluation and operator application, which freezing
+    # must not change
+    if static is None and r.random() < 0.2:
+        n_ops = r.randint(2, 4)
+        opnd = lambda: r.choice(["0", "0", "1", "2", "3", "o1", "o5"] + params)
+        chain = "nt_(%s)" % opnd()
+        for _ in range(n_ops):
+            chain += " %s nt_(%s)" % (r.choice(["//", "//", "%%", "+", "-", "*", "max", "op1", "<", "=="]), opnd())
+        body = "(nt_ := \\v_ -> (print(\"nt\", v_); v_); chq := (try (%s) catch _e -> \"raised\"); print(chq); %s)" % (chain, body)
     # a local declaration that shadows an outer variable and reads the outer one in its own right-hand side, in
     # every shape of right-hand side (the outer value is the one at freeze time, also after it is reassigned);
     # o7l / o8 are outer names the generator itself never mentions
@@ -356,7 +367,13 @@ def gen_lambda(r, size):
             ("swv_ := (switch ([@A, 3]) case o8, 4 -> o8 case _, 3 -> o8 + 7 case _ -> o8)", "swv_"),
             ("swv_ := [(for (o8 <- [4, 5]) yield o8 + 1), o8]", "swv_"),
             ("swv_ := ((\\o8 -> o8 * 2)(21) + o8)", "swv_"),
-            ("swv_ := [(try (throw @A) catch o8 -> o8), o8]", "swv_")])
+            ("swv_ := [(try (throw @A) catch o8 -> o8), o8]", "swv_"),
+            # loop and try bodies are scopes of their own: a declaration inside one shadows the outer name there
+            # only, and the code after the construct reads the outer variable again
+            ("swv_ := (wj_ := 0; wa_ := 0; (while (wj_ < 2) (o8 := wj_ * 10; wa_ += o8; wj_ += 1)); [wa_, o8])", "swv_"),
+            ("swv_ := (wj_ := 0; (while (wj_ < 1) (o7l := [wj_]; wj_ += 1)); o7l ++ [wj_])", "swv_"),
+            ("swv_ := [(for (fj_ <- [1, 2]) yield (o8 := fj_ * 3; o8 + 1)), o8]", "swv_"),
+            ("swv_ := [(try (o8 := 5; o8 + @A) catch _e -> \"r\"), o8]", "swv_")])
         # (not planted: `if (c) (o8 := 70; o8) else o8 + 1` -- if-branches share the enclosing scope, which makes it
         # an instance of the known finding about declarations that do not dominate the reads of the outer name)
         decl = decl.replace("@A", r.choice(["1", "2", "7", "[5]", "\"s\"", "0"] + params))
